@@ -28,6 +28,7 @@ type frame struct {
 	entrySt *State
 	iters   map[ssa.Value]*mapIter
 	allocs  map[string]bool
+	named   map[string]ssa.Value // source variables that denote exactly one SSA value in the function
 }
 
 type deferred struct {
@@ -40,6 +41,7 @@ type retInfo struct {
 	cond string
 	vals []Val
 	st   *State
+	pos  string
 }
 
 type loopInfo struct {
@@ -292,6 +294,7 @@ func (e *Exec) runFunc(fn *ssa.Function, args []Val, freeVars []Val, st0 *State,
 		}
 	}
 	f.entrySt = st0
+	f.named = singleValuedNames(fn)
 	f.loops = findLoops(fn)
 	if len(f.loops) > 0 && mode == "top" {
 		if n := countSourceLoops(fn); n >= 0 && n != len(f.loops) {
@@ -503,6 +506,9 @@ func (e *Exec) loopInvariants(f *frame, li *loopInfo) []Clause {
 		}
 		if phi.Comment == "rangeindex" {
 			invs = append(invs, Clause{ID: "auto_idx", E: &EBin{Op: ">=", X: &EIdent{Name: "rangeindex"}, Y: &EUn{Op: "-", X: &EInt{V: "1"}}}, Src: "rangeindex >= -1"})
+			if rangeLenOf(li.header, phi) != nil {
+				invs = append(invs, Clause{ID: "auto_len", E: &EBin{Op: "<=", X: &EBin{Op: "+", X: &EIdent{Name: "rangeindex"}, Y: &EInt{V: "1"}}, Y: &EIdent{Name: "$rangelen"}}, Src: "rangeindex + 1 <= len"})
+			}
 		}
 	}
 	// package invariants are loop invariants of every loop of the package's functions
@@ -534,6 +540,68 @@ func (e *Exec) loopEnv(f *frame, li *loopInfo, st *State) *Env {
 			env.Vars[phi.Name()] = v
 		}
 	}
+	// local variables that denote a single SSA value (from the debug references of the SSA build)
+	for name, sv := range f.named {
+		if v, ok := f.vals[sv]; ok {
+			if _, taken := env.Vars[name]; !taken {
+				env.Vars[name] = v
+			}
+		}
+	}
+	// range indices of all loops by ordinal: rangeindex1, rangeindex2, ...
+	for h, l := range f.loops {
+		for _, ins := range h.Instrs {
+			phi, ok := ins.(*ssa.Phi)
+			if !ok {
+				break
+			}
+			if phi.Comment == "rangeindex" {
+				if v, ok := f.vals[phi]; ok {
+					env.Vars[fmt.Sprintf("rangeindex%d", l.ordinal)] = v
+				}
+			}
+		}
+	}
+	// named phis outside the loop header (variables assigned on several paths before the loop)
+	for _, b := range f.fn.Blocks {
+		if b == li.header {
+			continue
+		}
+		for _, ins := range b.Instrs {
+			phi, ok := ins.(*ssa.Phi)
+			if !ok {
+				break
+			}
+			if v, ok := f.vals[phi]; ok && phi.Comment != "" {
+				if _, taken := env.Vars[phi.Comment]; !taken {
+					env.Vars[phi.Comment] = v
+				}
+			}
+		}
+	}
+	for _, ins := range li.header.Instrs {
+		if phi, ok := ins.(*ssa.Phi); ok && phi.Comment == "rangeindex" {
+			if lv := rangeLenOf(li.header, phi); lv != nil {
+				if v, ok := f.vals[lv]; ok {
+					env.Vars["$rangelen"] = v
+				} else if c, ok := lv.(*ssa.Const); ok {
+					env.Vars["$rangelen"] = e.constVal(c)
+				}
+			}
+		}
+	}
+	// named local variables that live in memory (address-taken): by source name, as pointers
+	for _, b := range f.fn.Blocks {
+		for _, ins := range b.Instrs {
+			if a, ok := ins.(*ssa.Alloc); ok && a.Comment != "" {
+				if v, ok := f.vals[a]; ok {
+					if _, taken := env.Vars[a.Comment]; !taken {
+						env.Vars[a.Comment] = v
+					}
+				}
+			}
+		}
+	}
 	// map iteration ghost
 	for b := range li.body {
 		for _, ins := range b.Instrs {
@@ -541,6 +609,7 @@ func (e *Exec) loopEnv(f *frame, li *loopInfo, st *State) *Env {
 				if it := f.iters[nx.Iter]; it != nil && !it.isStr {
 					kty := tyOfGo(it.mt.Key())
 					env.Vars["$visited"] = Val{T: e.get(st, it.visited), Ty: &STy{K: KArr, Key: kty, Elem: tyBool}}
+					env.Vars["$rangemap"] = it.m
 				}
 			}
 		}
@@ -591,4 +660,47 @@ func (e *Exec) loopHeapWrites(f *frame, li *loopInfo, st *State) []string {
 	}
 	sort.Strings(out)
 	return out
+}
+
+// rangeLenOf: the length a range-index loop counts up to (Y of the header's "phi+1 < len" test).
+func rangeLenOf(header *ssa.BasicBlock, phi *ssa.Phi) ssa.Value {
+	var inc ssa.Value
+	for _, ins := range header.Instrs {
+		if b, ok := ins.(*ssa.BinOp); ok {
+			if b.Op == token.ADD && b.X == phi {
+				inc = b
+			}
+			if b.Op == token.LSS && inc != nil && b.X == inc {
+				return b.Y
+			}
+		}
+	}
+	return nil
+}
+
+// singleValuedNames: source-level local variable names that refer to one and the same SSA value at
+// every reference in the function (so that contracts may mention them by name).
+func singleValuedNames(fn *ssa.Function) map[string]ssa.Value {
+	seen := map[string]ssa.Value{}
+	multi := map[string]bool{}
+	for _, b := range fn.Blocks {
+		for _, ins := range b.Instrs {
+			d, ok := ins.(*ssa.DebugRef)
+			if !ok || d.IsAddr {
+				continue
+			}
+			id, ok := d.Expr.(*ast.Ident)
+			if !ok {
+				continue
+			}
+			if prev, ok := seen[id.Name]; ok && prev != d.X {
+				multi[id.Name] = true
+			}
+			seen[id.Name] = d.X
+		}
+	}
+	for n := range multi {
+		delete(seen, n)
+	}
+	return seen
 }
